@@ -362,7 +362,7 @@ func runC11(a *A) {
 			}
 		}
 		// R1
-		for ret, ok := range definitelyWritten(rv, cd.valFn, buf, wset) {
+		for ret, ok := range definitelyWritten(rv, rv.Fn, buf, wset) {
 			if !ok {
 				report(finding{"C11-R1", "written@decimal" + tag, w.posOf(ret),
 					fmt.Sprintf("DECIMAL(%d,%d): a success return is reachable without anything having been written to the text (value 0 decodes to an empty, NULL-looking value)", p, s)})
@@ -449,7 +449,7 @@ func runC11(a *A) {
 		if dot >= 0 {
 			dotIn = ws[dot].In
 		}
-		for _, b := range cd.valFn.Blocks {
+		for _, b := range rv.Fn.Blocks {
 			if !rv.Exec[b] || !isLoopHeader(b) {
 				continue
 			}
